@@ -9,7 +9,7 @@ CONSTANTS MaxCoord,   \* coordinates 0..MaxCoord
           NChrom,     \* chromosomes 1..NChrom
           Genes,      \* values of the string column
           IdxKind,    \* "default" (labels 0,1,2..), "gapped" (0,2,5: a filtered table), "shifted" (3,5,6)
-          VSet,       \* which operation variants: "full", "core", "pairs2", "labels", "min", "ranges", "range1"
+          VSet,       \* which operation variants: "full", "core", "pairs", "pairs2", "labels", "min", "ranges", "range1"
           Shards, Shard  \* only the tables t with ShardKey(t) % Shards = Shard (Shards = 1: all of them)
 
 Rows4 == {<<c, s, e, g>> : c \in 1..NChrom, s \in 0..MaxCoord, e \in 0..MaxCoord, g \in Genes}
@@ -39,29 +39,27 @@ TQ(base, modes, keeps, cols, sfuns) == {<<base, m, k, c, f, 0, TRUE, TRUE>> : m 
 RQ(base, chroms) == {<<base, m, TRUE, "gene", "none", ch, hs, he>> : m \in Modes, ch \in chroms, hs \in BOOL, he \in BOOL}
 VFull == TQ("by_ranges", Modes, BOOL, {"gene"}, {"none"})
          \cup TQ("intersection", Modes, {TRUE}, {"gene"}, {"none"})
-         \cup TQ("iter_ranges_of", Modes, BOOL, {"gene"}, {"none"})
+         \cup TQ("iter_ranges_of", Modes, {TRUE}, {"gene"}, {"none"})
+         \cup TQ("iter_ranges_of", {"outer"}, {FALSE}, {"gene"}, {"none"})
          \cup TQ("iter_ranges_of", {"trim"}, {TRUE}, {"end"}, {"none"})
-         \cup TQ("into_ranges", {"outer"}, {TRUE}, {"gene"}, {"none", "const", "last"})
-         \cup TQ("into_ranges", {"outer"}, {TRUE}, {"val"}, {"none", "sum"})
-         \cup TQ("into_ranges", {"outer"}, {TRUE}, {"n"}, {"none"})
-         \cup TQ("into_ranges", {"outer"}, {TRUE}, {"missing"}, {"none"})
+         \cup TQ("into_ranges", {"outer"}, {TRUE}, {"gene"}, {"none", "last"})
+         \cup TQ("into_ranges", {"outer"}, {TRUE}, {"val", "n", "missing"}, {"none"})
 VCore == TQ("by_ranges", Modes, BOOL, {"gene"}, {"none"})
          \cup TQ("intersection", Modes, {TRUE}, {"gene"}, {"none"})
          \cup TQ("iter_ranges_of", {"outer"}, BOOL, {"gene"}, {"none"})
          \cup TQ("into_ranges", {"outer"}, {TRUE}, {"gene", "val"}, {"none"})
 VPairs2 == TQ("by_ranges", Modes, {TRUE}, {"gene"}, {"none"})
-           \cup TQ("by_ranges", {"outer"}, {FALSE}, {"gene"}, {"none"})
-           \cup TQ("intersection", {"inner"}, {TRUE}, {"gene"}, {"none"})
-           \cup TQ("iter_ranges_of", {"outer"}, {FALSE}, {"gene"}, {"none"})
            \cup TQ("into_ranges", {"outer"}, {TRUE}, {"gene"}, {"none"})
 VLabels == TQ("intersection", {"outer", "inner"}, {TRUE}, {"gene"}, {"none"})
            \cup TQ("iter_ranges_of", {"outer"}, {TRUE}, {"gene"}, {"none"})
            \cup TQ("into_ranges", {"outer"}, {TRUE}, {"gene", "val", "n"}, {"none"})
-           \cup TQ("into_ranges", {"outer"}, {TRUE}, {"gene"}, {"last"})
+           \cup TQ("into_ranges", {"outer"}, {TRUE}, {"gene"}, {"last", "const"})
+           \cup TQ("into_ranges", {"outer"}, {TRUE}, {"val"}, {"sum", "count"})
 VMin == TQ("by_ranges", Modes, {TRUE}, {"gene"}, {"none"})
 Variants == CASE VSet = "full"   -> VFull \cup RQ("in_range", 0..NChrom+1) \cup RQ("in_ranges", 1..NChrom)
               [] VSet = "core"   -> VCore \cup RQ("in_range", 0..NChrom+1)
-              [] VSet = "pairs2" -> VPairs2 \cup RQ("in_range", 0..NChrom+1)
+              [] VSet = "pairs"  -> VFull \cup RQ("in_range", 0..NChrom+1)
+              [] VSet = "pairs2" -> VPairs2 \cup RQ("in_range", {0, NChrom, NChrom+1})
               [] VSet = "labels" -> VLabels
               [] VSet = "min"    -> VMin
               [] VSet = "ranges" -> RQ("in_range", 0..NChrom+1) \cup RQ("in_ranges", 0..NChrom)
